@@ -9,6 +9,7 @@ CONSTANTS
   Extra <- NoExtra
   GFirst = TRUE
   SelDet = FALSE
+  RecSteps = TRUE
   LogOn = TRUE
 VIEW View
 INVARIANT TypeOK
@@ -18,4 +19,5 @@ INVARIANT SelectorsDisjoint
 INVARIANT SelHeld
 INVARIANT Serialisable
 INVARIANT Quiescent
+INVARIANT TableMatchesHeld
 CHECK_DEADLOCK TRUE
